@@ -6,6 +6,8 @@ CONSTANTS
   HasHf = FALSE
   Absent0 <- AbsMid
   Admin = TRUE
+  AlwaysW = TRUE
+  AlwaysPRs = TRUE
   Cmds = {}
   Rewrites = FALSE
   NP = 2
